@@ -58,7 +58,7 @@ def main():
             "replay_cmd_template": "python3 sa/check.py %s --tier quick  # violation record: {path}" % pid,
             "engine": "pkgsrc-sa",
             "level_claimed": {"category": "other", "text": LEVEL_TEXT, "design_ref": "DESIGN.md section 4, %s" % pid},
-            "level_note": "Trusted: rustc MIR construction/trait resolution (-Zmir-opt-level=0), semantics of std/glob/indexmap/serde/RustCrypto calls, spec tables under sa/spec. Decides structural clauses only.",
+            "level_note": "Trusted: rustc MIR construction/trait resolution (-Zmir-opt-level=0), semantics of std/glob/indexmap/serde/RustCrypto calls, spec tables under sa/spec. Decides structural clauses only. Paths are evaluated on normal forms (helpers absent from sa/spec/known_items.json inlined, Option/Result combinators and `?` evaluated as matches, split / slice / length / quantifier idioms normalised); a rule that cannot recognise its anchor fails closed (DESIGN.md 7b gives the measured false-alarm rate).",
             "technique": "static analysis: " + TECH[pid],
         })
     m = {
